@@ -1197,19 +1197,28 @@ def check_path_component(prog, rep):
     f = m.functions.get('valid_hdf5_path_component')
     if f is None:
         raise AnalysisError('valid_hdf5_path_component not found')
-    rets = [s for s in stmts_of(inline_temps(f)) if isinstance(s, ast.Return)]
+    from ..dtable import run_paths, UNKNOWN
     pn = params(f)
-    if len(rets) != 1 or len(pn) != 1:
-        raise AnalysisError('valid_hdf5_path_component: expected one parameter, one return')
+    if len(pn) != 1:
+        raise AnalysisError('valid_hdf5_path_component: expected one parameter')
+    body = [s_ for s_ in f.body if not (isinstance(s_, ast.Expr) and isinstance(s_.value,
+                                                                                ast.Constant))]
     witnesses = [('', True, False), ('.', True, False), ('a/b', True, False), ('/', True, False),
                  ('a', True, True), ('S z', True, True), (1, False, False), (None, False, False)]
     for w, is_str, want in witnesses:
         atoms = {'isinstance(%s, str)' % pn[0]: is_str}
-        got = eval_test(rets[0].value, atoms, {pn[0]: w})
+        paths = [p_ for p_ in run_paths(body, atoms, env={pn[0]: w}) if p_.outcome == 'return']
+        got = None
+        if len(paths) == 1:
+            v = paths[0].value
+            if isinstance(v, ast.AST):
+                got = eval_test(v, atoms, dict(paths[0].env))
+            elif v is not UNKNOWN and v is not None:
+                got = bool(v)
         rep.instance('HDF5-path-component', {'key': repr(w), 'accepted': got, 'expected': want})
         if got is None:
-            raise AnalysisError('valid_hdf5_path_component: cannot fold `%s` for key %r' %
-                                (unparse(rets[0].value), w))
+            raise AnalysisError('valid_hdf5_path_component: cannot fold the result for key %r '
+                                '(%d return paths)' % (w, len(paths)))
         if got != want:
             rep.violation('HDF5-path-component', m, 'valid_hdf5_path_component',
                           'witness:%r' % (w, ),
@@ -1217,4 +1226,4 @@ def check_path_component(prog, rep):
                           '%s' % (w, 'accepted' if got else 'rejected',
                                   'it does not name a fresh child of the group: saving fails or '
                                   'overwrites' if got else 'it is a valid component'),
-                          rets[0].lineno)
+                          f.lineno)
